@@ -133,6 +133,13 @@ func (c24Engine) Execute(t *testing.T, c *simrun.Case, keepLog bool) *simrun.Out
 	}
 	p := simrun.Bubble(t, func() {
 		// reset process-wide limiter state, configuration and credential store
+		// (Race builds: the previous run's pruner goroutine is frozen in its finished bubble; it read the
+		// configuration before taking this mutex at each of its ticks. Acquiring the mutex once gives the race
+		// detector the happens-before edge from those reads to the configuration writes below — the scheduler's
+		// own hand-offs are deliberately hidden from it.)
+		if loginAttemptsMu.TryLock() {
+			loginAttemptsMu.Unlock()
+		}
 		loginAttemptsMu = sync.Mutex{}
 		loginAttempts = map[string]*loginRecord{}
 		scanOnce = sync.Once{}
